@@ -70,11 +70,13 @@ n_first = sum(1 for d in metas if d.get('detected_by') != 'NOT DETECTED' and 'NO
 n_later = sum(1 for d in metas if d.get('detected_by') != 'NOT DETECTED' and 'NOT DETECTED' in d.get('history', []))
 n_open = sum(1 for d in metas if d.get('detected_by') == 'NOT DETECTED')
 n_other = sum(1 for d in metas if d.get('detected_by', '').split(' ')[0] not in ('NOT', d.get('property', '')))
-stats = ('**%d seeded changes** in three waves (two per property and wave; the third wave asked only for changes that need an interleaving, '
-         'a fault at a particular point, a multi-step sequence on the same object, or two cooperating sites). '
+n_waves = (max(int(os.path.basename(os.path.dirname(m)).split('_')[1]) for m in glob.glob(os.path.join(V, 'seeded/*/meta.json'))) + 1) // 2
+open_txt = ''.join(' **%s** is not detected: %s.' % (os.path.basename(os.path.dirname(m)), json.load(open(m)).get('strengthened', 'no check reports it')) for m in sorted(glob.glob(os.path.join(V, 'seeded/*/meta.json'))) if json.load(open(m)).get('detected_by') == 'NOT DETECTED')
+stats = ('**%d seeded changes** in ' + str(n_waves) + ' waves (two per property and wave; the third wave asked only for changes that need an interleaving, '
+         'a fault at a particular point, a multi-step sequence on the same object, or two cooperating sites; the later waves asked for one change exposed by an unusual input alone and one that needs a sequence, a fault, an interleaving or two cooperating sites, and listed the earlier attempts so that mechanisms differ). '
          '%d were detected by the checks as they stood when the change arrived; %d were missed at first and are detected since the checks were strengthened '
          '(what was added is quoted in the last column); %d are not detected. %d are reported by the check of a sibling property that owns the violated clause '
-         '(for example an ownership defect seeded under the fixpoint property is reported by C08): the column says which.\n\n') % (n_all, n_first, n_later, n_open, n_other)
+         '(for example an ownership defect seeded under the fixpoint property is reported by C08): the column says which.' + open_txt + '\n\n') % (n_all, n_first, n_later, n_open, n_other)
 sec9 = ''
 if rows:
     sec9 = (stats + 'Changes written by independent sub-agents that saw only the property text and a scratch worktree;\n'
